@@ -89,6 +89,7 @@ func vfGenC01(r *vfRand, id int) *vfWorldCase {
 	case 2:
 		cfg.Excluded = []string{"/assets/", "/health"}
 	}
+	cfg.LongKeys = r.chance(1, 4) // two deployments whose long keys differ only in their last characters
 	cs := &vfWorldCase{ID: id, Kind: "gate", Script: vfScript{Cfg: cfg, Browsers: 2}}
 	var acts []vfAction
 	// browser 1 holds a genuine session obtained by a real login (source of cookies to steal / merge)
@@ -168,7 +169,10 @@ func vfCorpusC01() []*vfWorldCase {
 	edge := &vfWorldCase{Kind: "corpus", Script: vfScript{Cfg: vfWorldCfg{EndSession: true, GraceSec: 60}, Browsers: 1, Actions: []vfAction{
 		{Kind: "mint", Browser: 0, Mint: &vfMintSpec{Auth: true, Email: "a@example.com", Tok: edgeTok, RefreshLen: 0}},
 		vfGated(0, 0, "/app", 1), {Kind: "sleep", SleepMs: 4300}, vfGated(0, 0, "/app", 1), vfGated(0, 0, "/app/again", 1)}}}
-	return []*vfWorldCase{sse, foreign, stale("no_id_token", false, nil), stale("no_id_token", true, nil),
+	foreignLong := &vfWorldCase{Kind: "corpus", Script: vfScript{Cfg: vfWorldCfg{EndSession: true, GraceSec: 60, LongKeys: true}, Browsers: 1, Actions: []vfAction{
+		{Kind: "mint", Browser: 0, Mint: &vfMintSpec{Auth: true, Email: "a@example.com", Tok: vfPlainTok("a@example.com", 3600), KeyB: true}},
+		vfGated(0, 0, "/app", 1), vfGated(0, 0, "/app/2", 1)}}}
+	return []*vfWorldCase{sse, foreign, foreignLong, stale("no_id_token", false, nil), stale("no_id_token", true, nil),
 		stale("ok", false, vfTokForState(nil, "expired")), stale("ok", false, vfTokForState(nil, "bad_sig")), edge}
 }
 
@@ -322,7 +326,23 @@ func vfCorpusC04() []*vfWorldCase {
 	spec.Jti = "jti-corpus-c04"
 	acts := append(vfLogin(0, 0, "/app", vfOkScript(spec)), vfGated(0, 0, "/app", 1), vfGated(0, 0, "/app", 1),
 		vfAction{Kind: "newinst", Slot: 0}, vfGated(0, 0, "/app", 1), vfGated(0, 0, "/b", 1))
-	return []*vfWorldCase{{Kind: "corpus", Script: vfScript{Cfg: vfWorldCfg{EndSession: true, GraceSec: 60}, Browsers: 1, Actions: acts}}}
+	// established sessions are served by a freshly started instance whatever the verification rate limit is:
+	// 14 browsers log in (paced, so that the logins themselves stay within the limit of 10/s), the instance is
+	// replaced, and all 14 come back at once
+	var many []vfAction
+	for b := 0; b < 14; b++ {
+		sp := vfPlainTok(fmt.Sprintf("u%d@example.com", b), 3600)
+		many = append(many, vfLogin(b, 0, fmt.Sprintf("/app/%d", b), vfOkScript(sp))...)
+		many = append(many, vfAction{Kind: "sleep", SleepMs: 160})
+	}
+	many = append(many, vfAction{Kind: "newinst", Slot: 0})
+	for b := 0; b < 14; b++ {
+		many = append(many, vfGated(b, 0, fmt.Sprintf("/app/%d", b), 1))
+	}
+	return []*vfWorldCase{
+		{Kind: "corpus", Script: vfScript{Cfg: vfWorldCfg{EndSession: true, GraceSec: 60}, Browsers: 1, Actions: acts}},
+		{Kind: "corpus", Script: vfScript{Cfg: vfWorldCfg{EndSession: true, GraceSec: 60, RateLimit: 10}, Browsers: 14, Actions: many}},
+	}
 }
 
 // ---------------------------------------------------------------- C06: domain and role restrictions
@@ -349,6 +369,18 @@ func vfGenC06(r *vfRand, id int) *vfWorldCase {
 	}
 	if r.chance(1, 8) {
 		cfg.Domains, cfg.Roles = nil, nil
+	}
+	if r.chance(1, 8) { // lists that are configured but name nothing usable (an unset variable in a templated configuration)
+		switch r.intn(4) {
+		case 0:
+			cfg.Domains = []string{""}
+		case 1:
+			cfg.Domains = []string{" ", ""}
+		case 2:
+			cfg.Roles = []string{""}
+		case 3:
+			cfg.Domains, cfg.Roles = []string{"", "example.com"}, []string{" "}
+		}
 	}
 	refreshing := r.chance(1, 2)
 	if refreshing {
@@ -381,9 +413,15 @@ func vfCorpusC06() []*vfWorldCase {
 	t2 := vfPlainTok("alice@example.com", 3600)
 	t2.Groups = "admin"
 	c := vfWorldCfg{EndSession: true, GraceSec: 60, Domains: []string{"example.com"}, Roles: []string{"admin"}}
+	blankD := vfWorldCfg{EndSession: true, GraceSec: 60, Domains: []string{""}}
+	blankR := vfWorldCfg{EndSession: true, GraceSec: 60, Roles: []string{" "}}
+	t3 := vfPlainTok("mallory@evil.example", 3600)
+	t3.Groups = []interface{}{"staff"}
 	return []*vfWorldCase{
 		{Kind: "corpus", Script: vfScript{Cfg: c, Browsers: 1, Actions: append(vfLogin(0, 0, "/app", vfOkScript(t1)), vfGated(0, 0, "/app", 1))}},
 		{Kind: "corpus", Script: vfScript{Cfg: c, Browsers: 1, Actions: append(vfLogin(0, 0, "/app", vfOkScript(t2)), vfGated(0, 0, "/app", 1))}},
+		{Kind: "corpus", Script: vfScript{Cfg: blankD, Browsers: 1, Actions: append(vfLogin(0, 0, "/app", vfOkScript(t3)), vfGated(0, 0, "/app", 1))}},
+		{Kind: "corpus", Script: vfScript{Cfg: blankR, Browsers: 1, Actions: append(vfLogin(0, 0, "/app", vfOkScript(t3)), vfGated(0, 0, "/app", 1))}},
 	}
 }
 
@@ -543,7 +581,7 @@ func vfGenC09(r *vfRand, id int) *vfWorldCase {
 	}
 	// a stable session (no refresh due) whose cookies the deployment has already seen in ordinary
 	// requests; then what it emitted is modified, renamed or moved between two browsers
-	cfg := vfWorldCfg{PKCE: r.chance(1, 2), ForceHTTPS: r.chance(1, 2), EndSession: true, GraceSec: 60}
+	cfg := vfWorldCfg{PKCE: r.chance(1, 2), ForceHTTPS: r.chance(1, 2), EndSession: true, GraceSec: 60, LongKeys: r.chance(1, 3)}
 	cs := &vfWorldCase{ID: id, Kind: "cookie-tamper", Script: vfScript{Cfg: cfg, Browsers: 2}}
 	mk := func() *vfTokenScript {
 		sc := vfOkScript(vfSizedTok(r, vfSizes[r.intn(len(vfSizes))], r.chance(2, 3)))
@@ -588,12 +626,26 @@ func vfGenC10(r *vfRand, id int) *vfWorldCase {
 	case 3:
 		cfg.Templates = []vfTemplate{{"X-First-Group", "{{index .Claims.groups 0}}"}, {"X-Fail", "{{.Claims.missing.deeper}}"}}
 	}
+	if r.chance(1, 3) { // a template that fails AFTER it produced output (org is a string for some users), followed by one that works
+		cfg.Templates = append([]vfTemplate{{"X-Org-Info", "{{.Claims.email}}|{{.Claims.org.id}}"}}, cfg.Templates...)
+		cfg.Templates = append(cfg.Templates, vfTemplate{"X-Sub-Copy", "{{.Claims.sub}}"})
+	}
 	cs := &vfWorldCase{ID: id, Kind: "identity-headers", Script: vfScript{Cfg: cfg, Browsers: 1}}
 	t := vfPlainTok("user@example.com", 3600)
 	t.Groups = vfClaimShapes[r.intn(len(vfClaimShapes))]
 	t.Roles = vfClaimShapes[r.intn(len(vfClaimShapes))]
 	if r.chance(1, 3) {
 		t.Extra = map[string]interface{}{"realm": map[string]interface{}{"roles": "r1"}}
+	}
+	if len(cfg.Templates) > 0 && cfg.Templates[0].Name == "X-Org-Info" {
+		if t.Extra == nil {
+			t.Extra = map[string]interface{}{}
+		}
+		if r.chance(2, 3) {
+			t.Extra["org"] = "acme" // .Claims.org.id fails after the e-mail was written
+		} else {
+			t.Extra["org"] = map[string]interface{}{"id": "42"}
+		}
 	}
 	// half of the histories refresh: the first token is inside the grace period, so the next request
 	// obtains a token with OTHER groups / roles / template claims (and e-mail): the forwarded headers of
@@ -644,7 +696,16 @@ func vfCorpusC10() []*vfWorldCase {
 	acts2 := append(vfLogin(0, 0, "/app", vfOkScript(t1)),
 		vfReqAct(0, 0, "GET", "/app", 1, func(q *vfReq) { q.Script = vfOkScript(t2); q.ClientIDs = []int{4, 5} }),
 		vfReqAct(0, 0, "GET", "/app", 1, nil))
+	// alice's template fails after writing her e-mail; bob's works: nothing of alice's may show up in bob's headers
+	ta := vfPlainTok("alice@example.com", 3600)
+	ta.Extra = map[string]interface{}{"org": "acme"}
+	tb := vfPlainTok("bob@example.com", 3600)
+	tb.Extra = map[string]interface{}{"org": map[string]interface{}{"id": "42"}}
+	acts3 := append(vfLogin(0, 0, "/a", vfOkScript(ta)), vfLogin(1, 0, "/b", vfOkScript(tb))...)
+	acts3 = append(acts3, vfGated(0, 0, "/a", 1), vfGated(1, 0, "/b", 1), vfGated(0, 0, "/a", 1), vfGated(1, 0, "/b", 1))
 	return []*vfWorldCase{
+		{Kind: "corpus", Script: vfScript{Cfg: vfWorldCfg{EndSession: true, GraceSec: 60,
+			Templates: []vfTemplate{{"X-Org-Info", "{{.Claims.email}}|{{.Claims.org.id}}"}, {"X-Sub-Copy", "{{.Claims.sub}}"}}}, Browsers: 2, Actions: acts3}},
 		{Kind: "corpus", Script: vfScript{Cfg: vfWorldCfg{EndSession: true, GraceSec: 60,
 			Templates: []vfTemplate{{"X-Fail", "{{.Claims.missing.deeper}}"}}}, Browsers: 1, Actions: acts}},
 		{Kind: "corpus", Script: vfScript{Cfg: vfWorldCfg{EndSession: true, GraceSec: 60,
@@ -730,6 +791,12 @@ func vfGenC15(r *vfRand, id int) *vfWorldCase {
 	if r.chance(1, 2) {
 		acts = append(acts, vfReqAct(0, 0, "GET", vfLogoutPath, 3, mod))
 	}
+	if r.chance(1, 3) { // more logouts on the same instance, each from another public origin (no session left: direct redirect)
+		for _, h := range []string{"tenant-a.example.net", "", "evil.example"} {
+			h := h
+			acts = append(acts, vfReqAct(0, 0, "GET", vfLogoutPath, 3, func(q *vfReq) { q.XFHost = h; q.NoCookies = true }))
+		}
+	}
 	if r.chance(1, 3) { // expiry / refresh-failure re-initiation from an odd URI
 		acts = append(acts, vfAction{Kind: "mint", Browser: 0, Mint: &vfMintSpec{Auth: true, Email: "user@example.com", Tok: vfTokForState(r, "expired"), RefreshLen: []int{0, 24}[r.intn(2)]}},
 			vfReqAct(0, 0, "GET", vfEvilURIs[r.intn(len(vfEvilURIs))], 1, func(q *vfReq) { q.Script = &vfTokenScript{Kind: "invalid_grant"} }))
@@ -741,7 +808,16 @@ func vfGenC15(r *vfRand, id int) *vfWorldCase {
 func vfCorpusC15() []*vfWorldCase {
 	acts := []vfAction{vfGated(0, 0, "//evil.example/x", 1), {Kind: "authorize", Browser: 0},
 		{Kind: "callback", Browser: 0, Script: vfOkScript(vfPlainTok("user@example.com", 3600))}}
-	return []*vfWorldCase{{Kind: "corpus", Script: vfScript{Cfg: vfWorldCfg{EndSession: true, GraceSec: 60}, Browsers: 1, Actions: acts}}}
+	// the first logout an instance serves comes from a hostile Host; later ones from the real origins
+	lo := func(h, proto string) vfAction {
+		return vfReqAct(0, 0, "GET", vfLogoutPath, 3, func(q *vfReq) { q.XFHost = h; q.XFProto = proto; q.NoCookies = true })
+	}
+	acts2 := []vfAction{lo("evil.example", ""), lo("", ""), lo("tenant-b.example.net", "https"), lo("", "")}
+	return []*vfWorldCase{
+		{Kind: "corpus", Script: vfScript{Cfg: vfWorldCfg{EndSession: true, GraceSec: 60}, Browsers: 1, Actions: acts}},
+		{Kind: "corpus", Script: vfScript{Cfg: vfWorldCfg{EndSession: false, GraceSec: 60, PostLogout: "/bye"}, Browsers: 1, Actions: acts2}},
+		{Kind: "corpus", Script: vfScript{Cfg: vfWorldCfg{EndSession: true, GraceSec: 60}, Browsers: 1, Actions: acts2}},
+	}
 }
 
 // ---------------------------------------------------------------- C16: error bodies
@@ -755,7 +831,13 @@ func vfGenC16(r *vfRand, id int) *vfWorldCase {
 		cfg.Domains = []string{"example.com"}
 	}
 	cs := &vfWorldCase{ID: id, Kind: "error-bodies", Script: vfScript{Cfg: cfg, Browsers: 1}}
-	m := func() string { return vfMarkup[r.intn(len(vfMarkup))] }
+	m := func() string {
+		x := vfMarkup[r.intn(len(vfMarkup))]
+		if r.chance(1, 3) { // text the page generator may treat specially (configured paths, URLs) followed by markup
+			x = vfPick(r, vfLogoutPath, vfCallbackPath, "see "+vfLogoutPath+" ", "https://app.example.test"+vfLogoutPath, "http://", "/") + x
+		}
+		return x
+	}
 	var acts []vfAction
 	if r.chance(2, 3) {
 		// the login starts from a target that itself carries markup (sent raw, as a hand-made client can):
@@ -799,7 +881,10 @@ func vfCorpusC16() []*vfWorldCase {
 		vfGated(0, 0, "/app/search?q=\"><script>alert(9)</script>", 1), {Kind: "authorize", Browser: 0},
 		{Kind: "callback", Browser: 0, ErrParam: "access_denied", ErrDesc: "denied", CodeMode: "absent", StateMode: "own"},
 		{Kind: "callback", Browser: 0, CodeMode: "garbage", StateMode: "garbage"}}}}
-	return []*vfWorldCase{mk(false), mk(true), stored}
+	linked := &vfWorldCase{Kind: "corpus", Script: vfScript{Cfg: vfWorldCfg{EndSession: true, GraceSec: 60}, Browsers: 1, Actions: []vfAction{
+		{Kind: "callback", Browser: 0, ErrParam: "access_denied", ErrDesc: "log out at " + vfLogoutPath + "<img src=x onerror=alert(1)>", CodeMode: "absent", StateMode: "absent"},
+		{Kind: "callback", Browser: 0, ErrParam: "access_denied", ErrDesc: vfCallbackPath + "\"><script>alert(2)</script>", CodeMode: "absent", StateMode: "absent"}}}}
+	return []*vfWorldCase{mk(false), mk(true), stored, linked}
 }
 
 // ---------------------------------------------------------------- C17: bad client state
